@@ -336,6 +336,21 @@ def unguarded_partial_lookups(ctx: Ctx) -> List[Tuple[Graph, Ev, str]]:
                 node = ev.node
                 env = FuncEnv.of(ctx.p, ev.inst.unit)
                 bt = env.type_of(node.value)
+                # direct item access on a result store: the entry is missing whenever the owner of the node
+                # failed or has not published yet
+                base_t = sym.term(ctx.p, node.value, ev.inst)
+                if isinstance(base_t, tuple) and base_t and base_t[0] == 'attr' and base_t[2] in ctx.storage_class().fields \
+                        and ev.inst.unit.cls is ctx.manager_class():
+                    key = (ev.inst.unit.fid, text(node))
+                    if key not in seen:
+                        seen.add(key)
+                        gs = guards(ev.inst.unit.node, node)
+                        cont, k = text(node.value), text(node.slice)
+                        guarded = any(pol and isinstance(e, ast.Compare) and len(e.ops) == 1 and isinstance(e.ops[0], ast.In)
+                                      and text(e.left) == k and text(e.comparators[0]) == cont for e, pol in gs)
+                        in_try = _inside_try_catching(ev.inst.unit.node, node, ('KeyError', 'LookupError', 'Exception'))
+                        res.append((g, ev, 'guarded' if guarded else ('caught' if in_try else 'unguarded-store')))
+                    continue
                 if bt[0] != 'dict':
                     continue
                 # defaultdict-style stores never raise
@@ -380,6 +395,11 @@ def rule_partial_lookups(ctx: Ctx, out: Collector) -> None:
             out.ok('ER-5', cons, ev.where(), 'dominated by a membership test of the same key in the same container')
         elif verdict == 'caught':
             out.ok('ER-5', cons, ev.where(), 'inside a try that catches the look-up error')
+        elif verdict == 'unguarded-store':
+            out.bad('ER-5', ctx.construct(ev) + ' [item access on a result store]', ev.where(),
+                    f'{ev.text()} indexes a result store directly: the entry is absent when the node\'s owner failed (or has not '
+                    f'published yet), the KeyError ends the task and becomes a possible outcome of the run instead of the node\'s '
+                    f'real exception', props={'C05', 'C02'})
         else:
             out.bad('ER-5', cons, ev.where(),
                     f'{ev.text()} looks up a key that comes from a node result without a membership guard: a value no case / '
